@@ -53,6 +53,9 @@ pub struct MemCfg {
     /// key -> hash
     pub hash: BTreeMap<String, u64>,
     pub cfg: AlgoCfg,
+    /// C16: weighter, filter, listener, pipe and the value destructor call back into the same cache
+    #[serde(default)]
+    pub reentrant: bool,
 }
 
 impl MemCfg {
@@ -81,12 +84,48 @@ impl MemCfg {
     }
 }
 
-#[derive(Clone, Debug)]
+#[derive(Debug)]
 pub struct Val {
     pub key: u64,
     pub ver: u64,
     pub w: usize,
     pub ph: bool,
+    /// re-enter the cache from the destructor (C16)
+    pub probe: bool,
+}
+
+impl Drop for Val {
+    fn drop(&mut self) {
+        if self.probe {
+            reenter();
+        }
+    }
+}
+
+thread_local! {
+    /// the cache user callbacks of this thread call back into, and the never-inserted keys (one per shard)
+    static REENTRY: std::cell::RefCell<Option<(C, Vec<u64>)>> = const { std::cell::RefCell::new(None) };
+}
+
+/// Make the user callbacks running on this thread call back into `cache` (None: stop).
+pub fn set_reentry(cache: Option<C>, shards: usize) {
+    let v = cache.map(|c| (c, (0..shards as u64).map(|s| 900 + s).collect::<Vec<u64>>()));
+    let _ = REENTRY.try_with(|c| *c.borrow_mut() = v);
+}
+
+/// What a re-entrant callback does: operations that need the write and the read lock of every shard but
+/// change nothing (the keys are never inserted), so the observation of the enclosing call is unaffected.
+/// If the enclosing call still holds a shard lock, this blocks for ever (the locks are not re-entrant).
+pub fn reenter() {
+    // (values may be dropped while the thread is being torn down: no re-entry then)
+    let target = REENTRY.try_with(|c| c.try_borrow().ok().and_then(|g| g.clone())).ok().flatten();
+    if let Some((cache, ghosts)) = target {
+        for g in ghosts.iter() {
+            let _ = cache.remove(g);
+            let _ = cache.contains(g);
+            let _ = cache.get(g);
+        }
+    }
 }
 
 #[derive(Clone, Default, Debug)]
@@ -101,7 +140,12 @@ pub struct TableHasher {
 
 impl Hasher for TableHasher {
     fn finish(&self) -> u64 {
-        *self.table.get(&self.v).unwrap_or(&self.v)
+        match self.table.get(&self.v) {
+            Some(h) => *h,
+            // never-inserted keys 900 + s hash to s (one per shard, for the re-entrant callbacks)
+            None if self.v >= 900 && self.v < 1000 => self.v - 900,
+            None => self.v,
+        }
     }
     fn write(&mut self, bytes: &[u8]) {
         for b in bytes {
@@ -165,6 +209,9 @@ impl EventListener for Listener {
         // a notification carrying another key's value is reported as a foreign version
         let ver = if value.key == *key { value.ver } else { 1_000_000 + value.ver };
         self.0.events.lock().push((r.to_string(), *key, ver));
+        if value.probe {
+            reenter();
+        }
     }
 }
 
@@ -185,6 +232,9 @@ impl Pipe for RecPipe {
     }
     fn send(&self, piece: Piece<u64, Val, CacheProperties>) {
         self.0.piped.lock().push(piece.value().ver);
+        if piece.value().probe {
+            reenter();
+        }
     }
     fn flush(&self, pieces: Vec<Piece<u64, Val, CacheProperties>>) -> Pin<Box<dyn Future<Output = ()> + Send>> {
         let mut g = self.0.piped.lock();
@@ -268,20 +318,35 @@ impl MemRunner {
             .with_hash_builder(TableHashBuilder {
                 table: self.table.clone(),
             })
-            .with_weighter(|_: &u64, v: &Val| v.w)
-            .with_filter(|_: &u64, v: &Val| !v.ph)
+            .with_weighter(|_: &u64, v: &Val| {
+                if v.probe {
+                    reenter();
+                }
+                v.w
+            })
+            .with_filter(|_: &u64, v: &Val| {
+                if v.probe {
+                    reenter();
+                }
+                !v.ph
+            })
             .with_event_listener(Arc::new(Listener(self.rec.clone())))
             .build()
             .with_pipe(Arc::new(RecPipe(self.rec.clone())));
+        if self.cfg.reentrant {
+            // one never-inserted key per shard: key 900 + s hashes to s
+            let ghosts: Vec<u64> = (0..self.cfg.shards as u64).map(|s| 900 + s).collect();
+            REENTRY.with(|c| *c.borrow_mut() = Some((cache.clone(), ghosts)));
+        }
         self.cache = Some(cache);
         Ok(())
     }
 
     fn hold_or_drop(&mut self, hold: bool, h: H) {
         if hold {
-            let v = h.value().clone();
+            let ver = h.value().ver;
             let w = h.weight();
-            self.held.push((v.ver, *h.key(), w, h));
+            self.held.push((ver, *h.key(), w, h));
         } else {
             drop(h);
         }
@@ -335,6 +400,7 @@ impl MemRunner {
                     ver,
                     w: op["w"].as_u64().ok_or("insert without w")? as usize,
                     ph: op["ph"].as_bool().unwrap_or(false),
+                    probe: self.cfg.reentrant,
                 };
                 let h = cache.insert_with_properties(k, val, CacheProperties::default().with_hint(hint));
                 let res = encode(h.value(), k);
@@ -440,6 +506,7 @@ impl MemRunner {
     pub fn finish(self) {
         drop(self.held);
         drop(self.cache);
+        let _ = REENTRY.try_with(|c| *c.borrow_mut() = None);
     }
 }
 
